@@ -34,3 +34,25 @@ def c15_weights_special(inp, obligation):
             if len(w) != len(grid) or np.any(w < 0) or abs(float(np.sum(w)) - 1.0) > 1e-12 or (len(grid) == 3 and (w[0] != 0 or w[-1] != 0)):
                 bad.append("compute_weights(%r, boundary=%r, modified_basis=%r) = %r" % (grid, boundary, modified, w.tolist()))
     return bool(bad), {"violations": bad}
+
+
+@handler("C15.nodes_after_fault")
+def c15_nodes_after_fault(inp, obligation):
+    """the node-based statistics after a history that leaves stale nodes / model values in the operation: two-stop moment cases of the bounded harness (first stop,
+    continuation, cache emptied, a model fault in the first node-based query of the new grid, the query repeated); reports the node-path clauses only"""
+    import random
+    from bounded import api, C15 as H
+    ctx = api.Ctx("C15", "quick", 0, 60.0)
+    rng = random.Random(5)
+    n = 0
+    for _ in range(6):
+        if ctx.out_of_time(0.9):
+            break
+        d = rng.choice([1, 2])
+        setup = H.sample_setup(rng, d, moderate=True)
+        d_span = all(H.spans_support(tuple(setup["dist"][k]), setup["a"][k], setup["b"][k]) for k in range(d)) or not setup["boundary"]
+        H.moments_case(ctx, setup, rng.choice(["exp", "poly", "abs"]), 1.7, 0.9 if d_span else 0.0, 3.0, 2, rng.choice([12, 20, 30]), False, 60)
+        n += 1
+    hits = [v for v in ctx.violations if "nodes-path" in v["witness_class"]]
+    bad = ["%s [%s]: %s" % (v["clause"], v["witness_class"], v["message"][:300]) for v in hits]
+    return bool(bad), {"cases": n, "violations": bad[:4]}
